@@ -22,7 +22,7 @@ var progress atomic.Int64
 
 func TestMain(m *testing.M) {
 	run = vk.Start("C04", "exploration")
-	run.Rule("frame sequences over {PADI,PADR,PADT, LCP cfg-req/ack/nak/term-req/echo, PAP good/bad/error, CHAP response, IPCP cfg-req (0.0.0.0 / client-chosen / with DNS / empty) and cfg-ack, IP, idle tick} x source station {A,B owners, F,G others} x session id {own, another live session's, dead} x Ethernet destination {server, broadcast, another station}, injected as Ethernet frames into the real pppoe.Server.receiveLoop on an in-memory raw socket in virtual time, against RADIUS {none, scripted accept/reject/challenge by credentials, unreachable, silent (timeout, real time)}: breadth-first from the post-PADS table (two live sessions, one dead id) with fingerprint pruning to the depth bound, plus seeded random walks of 10-60 frames with aimed handshake fragments; plus packet sequences against the stand-alone pppoe.Authenticator. non-trivial = distinct sequence whose judged part delivered a PPP session-stage frame or PADT carrying the id of a live session (the lookup and the gated handlers were reached) and on which both clauses were evaluated. Session-id counter: the same table reached after 65534 sessions (breadth-first spec and random walks whose 16-bit id counter is placed at 65531..0 after the prelude); scenarios with live sessions of A/B at ids out of {1,2,65535} (grid: every non-empty subset x 8 phase assignments over {LCP, authentication, IPCP, established}; random: 1-4 sessions at ids 65528..65535/1..6) followed by 1-12 PADRs of other stations with the counter placed at 65533..2 (grid) / 65528..6 (random), the stations then using the ids they were handed (PADT / own handshake / LCP terminate), owners probing with LCP echo and IPCP configure-request before and after; and real PADR/PADT churn of a third station taking the counter once round with sessions 1, 2 (and 65535) up. non-trivial there = distinct scenario in which a PADR of another station was answered and at least one owner session was compared across the foreign frames")
+	run.Rule("frame sequences over {PADI,PADR,PADT, LCP cfg-req/ack/nak/term-req/echo, PAP good/bad/error, CHAP response, IPCP cfg-req (0.0.0.0 / client-chosen / with DNS / empty) and cfg-ack, IP, idle tick} x source station {A,B owners, F,G others} x session id {own, another live session's, dead} x Ethernet destination {server, broadcast, another station}, injected as Ethernet frames into the real pppoe.Server.receiveLoop on an in-memory raw socket in virtual time, against RADIUS {none, scripted accept/reject/challenge by credentials, unreachable, silent (timeout, real time)}: breadth-first from the post-PADS table (two live sessions, one dead id) with fingerprint pruning to the depth bound, plus seeded random walks of 10-60 frames with aimed handshake fragments; plus packet sequences against the stand-alone pppoe.Authenticator. non-trivial = distinct sequence whose judged part delivered a PPP session-stage frame or PADT carrying the id of a live session (the lookup and the gated handlers were reached) and on which both clauses were evaluated. Session-id counter: the same table reached after 65534 sessions (breadth-first spec and random walks whose 16-bit id counter is placed at 65531..0 after the prelude); scenarios with live sessions of A/B at ids out of {1,2,65535} (grid: every non-empty subset x 8 phase assignments over {LCP, authentication, IPCP, established}; random: 1-4 sessions at ids 65528..65535/1..6) followed by 1-12 PADRs of other stations with the counter placed at 65533..2 (grid) / 65528..6 (random), the stations then using the ids they were handed (PADT / own handshake / LCP terminate), owners probing with LCP echo and IPCP configure-request before and after; and real PADR/PADT churn of a third station taking the counter once round with sessions 1, 2 (and 65535) up. non-trivial there = distinct scenario in which a PADR of another station was answered and at least one owner session was compared across the foreign frames. Foreign source addresses: source MAC out of {the AC's own MAC, broadcast, all-zero, a group address, the owner's MAC with bit k flipped (k = 0..47), another live session's owner, third-party stations F/G} x every frame type {PADI, PADR, PADT (session id in the PPPoE header), LCP cfg-req/ack/nak/term-req/echo, PAP good/bad/error, CHAP response, IPCP cfg-req x4 / cfg-ack, IP} carrying the id of a live session x Ethernet destination {the AC, broadcast, the owner} x sessions of A and B in 16 phase pairs (grid), plus seeded random mixes over 1-3 victims with owner frames in between; the same sources also appear as letters of the breadth-first alphabet and in the random walks. non-trivial there = distinct scenario in which a foreign frame carrying a live id was taken by the receive loop (and judged per frame) and, in the grid, at least one owner session was compared across the case")
 	run.Assume("the harness-owned RADIUS server's log is the ground truth for 'accepted by RADIUS': each PAP/CHAP frame carries a unique user name and the server records its decision under it")
 	run.Assume("with no RADIUS client configured the code documents accept-all; the gate is then 'a PAP exchange from the owner MAC was delivered to the live session' (DESIGN 5b)")
 	run.Assume("an accepted exchange is never withdrawn by a later rejected one (the statement says 'only after ... was accepted'); establishment after a later rejection is counted, not judged")
@@ -46,6 +46,23 @@ func TestMain(m *testing.M) {
 	run.Floor("churn_padrs_answered_after_the_counter_wrapped", 4)
 	run.Floor("churn_owner_sessions_compared_across_foreign_frames", 2)
 	run.Floor("cases_random_walk_near_wrap", 500)
+	run.Floor("foreign_source_cases", 2500)
+	run.Floor("foreign_frames_on_live_ids_taken_by_the_receive_loop", 50000)
+	run.Floor("foreign_frames_on_live_id_from_the-acs-own-mac", 3000)
+	run.Floor("foreign_frames_on_live_id_from_broadcast-address", 3000)
+	run.Floor("foreign_frames_on_live_id_from_all-zero-address", 3000)
+	run.Floor("foreign_frames_on_live_id_from_group-address", 1500)
+	run.Floor("foreign_frames_on_live_id_from_owners-mac-with-one-bit-flipped", 50000)
+	run.Floor("foreign_frames_on_live_id_from_another-live-sessions-owner", 3000)
+	run.Floor("foreign_frames_on_live_id_from_third-party-station", 3000)
+	run.Floor("foreign_frames_on_live_id_to_the-ac", 20000)
+	run.Floor("foreign_frames_on_live_id_to_broadcast", 20000)
+	run.Floor("foreign_frames_on_live_id_to_the-owner", 20000)
+	run.Floor("foreign_frames_on_live_id_of_a_session_holding_an_address", 10000)
+	run.Floor("foreign_distinct_source_class_x_frame_type_x_destination_cells", 7*18*3)
+	run.Floor("foreign_distinct_bit_positions_of_the_owners_mac_flipped", 48)
+	run.Floor("foreign_owner_sessions_compared_across_foreign_frames", 4000)
+	run.Floor("foreign_owner_probe_pairs_compared", 8000)
 
 	var err error
 	if srvScripted, err = newRadSrv(false); err != nil {
@@ -176,7 +193,7 @@ func execSeq(t *testing.T, sp *spec, seq []sym, judgePrelude bool, judgeFrom int
 				c.placeCounter(sp.Counter)
 			}
 			judged := i >= jf
-			if live := c.step(s, judged); live && judged && i >= len(sp.Prelude) && (s.K.isSession() || s.K == kPADT) && s.Dst != 2 {
+			if live := c.step(s, judged); live && judged && i >= len(sp.Prelude) && (s.K.isSession() || s.K == kPADT) && s.toServer() {
 				res.nontriv = true
 			}
 			if c.incon != "" {
@@ -290,6 +307,14 @@ func bfsAlphabet(sp *spec) []sym {
 		a = append(a, sym{K: k, Src: 0, ID: 2})
 	}
 	a = append(a, sym{K: kPADI, Src: 2, Dst: 1}, sym{K: kPADR, Src: 0}, sym{K: kPADR, Src: 2}, sym{K: kTick})
+	// sources that are no station of the exchange, on A's session: the AC's own address, the
+	// broadcast and the all-zero address, A's address with its lowest bit flipped (foreign_test.go)
+	for _, alt := range []int{altAC, altBcast, altZero, altFlip(0, 0)} {
+		a = append(a, sym{K: kPADT, ID: 1, Alt: alt})
+	}
+	for _, k := range []kind{kLCPTerm, kPAPGood, kIPCPAck} {
+		a = append(a, sym{K: k, ID: 1, Alt: altAC})
+	}
 	return a
 }
 
@@ -419,7 +444,7 @@ func (g *walkGen) noteCreated(src int) {
 }
 
 func (g *walkGen) emit(out *[]sym, s sym) {
-	if s.K == kPADR && s.Dst != 2 {
+	if s.K == kPADR && s.toServer() {
 		g.noteCreated(s.Src)
 	}
 	*out = append(*out, s)
@@ -463,7 +488,13 @@ func (g *walkGen) gen(n int, scripted bool) []sym {
 			if k == kTick && g.rng.IntN(3) != 0 {
 				k = kLCPEcho
 			}
-			g.emit(&out, sym{K: k, Src: g.rng.IntN(4), ID: g.anyID(), Dst: dst})
+			s := sym{K: k, Src: g.rng.IntN(4), ID: g.anyID(), Dst: dst}
+			if g.rng.IntN(6) == 0 {
+				// a source that is no station of the exchange (foreign_test.go)
+				s.Alt = []int{altAC, altBcast, altZero, altMcast, altFlip(g.rng.IntN(2), g.rng.IntN(48)), altFlip(g.rng.IntN(2), g.rng.IntN(8))}[g.rng.IntN(6)]
+				s.SID = g.rng.IntN(2) == 0
+			}
+			g.emit(&out, s)
 		}
 	}
 	return out
